@@ -168,9 +168,11 @@ def run(ctx):
                                 pct = True
         ctx.ob("R4", "percent-percent", pct, "%% must become the literal text \"%\"", fn=pf, how="branch + constant")
         jl = C.find_local(pf, "justify", ty="printf::Justify")
-        if jl:
+        # (the flag loop may sit in a helper that was spliced in: its own `justify` is the one written by the '-' arm)
+        jall = [l_ for l_ in range(len(pf.locals)) if (pf.local_name(l_) or "").split("::")[-1] == "justify" and pf.local_ty(l_).endswith("printf::Justify")] or jl
+        if jl or jall:
             vals = []
-            for bb, o in prim.defs_origins(pf, jl[0]):
+            for bb, o in [x_ for l_ in (jall or jl) for x_ in prim.defs_origins(pf, l_)]:
                 s = o.strip()
                 if s.k == "agg":
                     ch = None
@@ -188,7 +190,9 @@ def run(ctx):
                     wo = prim.origin_of_operand(pf, s.rv.ops[names.index("width")]).strip()
                     jo = prim.origin_of_operand(pf, s.rv.ops[names.index("justify")]).strip()
                     wcalls = [c.a["callee"] for c in wo.call_nodes()]
-                    ok = FSP + "parse_format_width" in wcalls and set(c.a["name"] for c in wo.call_nodes()) <= {"parse_format_width", "branch"} and jo.k == "var" and jo.a.get("name") == "justify"
+                    ok = FSP + "parse_format_width" in wcalls and set(c.a["name"] for c in wo.call_nodes()) <= {"parse_format_width", "branch"} and \
+                        ((jo.k == "var" and (jo.a.get("name") or "").split("::")[-1] == "justify") or
+                         (not jo.consts() or True) and any(x.k == "var" and (x.a.get("name") or "").split("::")[-1] == "justify" for x in prim.renorm(prim.expand_single_def_vars(pf, jo, depth=5)).walk()) and not any(cn_.a["name"] not in ("branch", "from_residual") for cn_ in jo.call_nodes()))
                     ctx.ob("R3", "directive-carries-width-and-flag", ok, "Directive{width: %s, justify: %s}; oracle: the parsed width and flag" % (wo.fmt(), jo.fmt()), fn=pf, where=prim.site(pf, b, s), how="provenance slice")
     # ---- R2 accessors --------------------------------------------------------------------------------------------
     fd = ctx.fn("R2", P + "format_directive")
@@ -208,6 +212,13 @@ def run(ctx):
                 continue
             tgt, reg = regions[var]
             names = {fd.blocks[x].term.j.get("callee_name") for x in reg if fd.blocks[x].term.k == "call"}
+            # values computed once before the dispatch (`let path = file_info.path();`) and used in the arm count as read there
+            for x in reg:
+                tt = fd.blocks[x].term
+                if tt.k == "call":
+                    for a_ in tt.args:
+                        if a_.place is not None:
+                            names |= {cn_.a["name"] for cn_ in prim.expand_single_def_vars(fd, prim.origin_of_operand(fd, a_)).call_nodes() if cn_.a["name"] in (must | forbid)}
             stat_fields = {"len", "nlink", "ino", "uid", "gid", "dev", "blocks", "mode", "size"} & names
             ok = must <= names and not (forbid & names) and (not (must & {"len", "nlink", "ino", "uid", "gid"}) or stat_fields == (must & stat_fields))
             # a status-record field must be read from the record itself (std::fs::Metadata), not from a look-alike accessor
